@@ -62,11 +62,17 @@ func randDim(rng *rand.Rand) int {
 }
 
 // cloneF32 copies v; nil stays nil and an empty non-nil slice stays empty and non-nil (the two are different inputs).
+// Every copy is a WINDOW into a slightly larger buffer whose tail holds garbage (as rows of a matrix or slices of an
+// arena are): code that looks behind len(v) - unrolled loops re-slicing to a multiple of four, append-based "copies" -
+// then computes with the garbage, which every oracle downstream notices.
 func cloneF32(v []float32) []float32 {
 	if v == nil {
 		return nil
 	}
-	return append(make([]float32, 0, len(v)), v...)
+	buf := make([]float32, len(v)+3)
+	buf[len(v)], buf[len(v)+1], buf[len(v)+2] = 1e30, -1e30, 12345.678
+	copy(buf, v)
+	return buf[:len(v)]
 }
 
 func sameBits(a, b []float32) bool {
@@ -415,6 +421,49 @@ func runC18(r *ev.Run) {
 			if len(cos.CalculateBatch(nil, pc)) != 0 {
 				fail("cos.batch-length", "empty batch returned results")
 			}
+		}
+		// arguments that are windows into larger buffers (rows of a matrix, a reused arena): whatever lies behind
+		// len(v) in the backing array is none of the distance function's business
+		if i%3 == 0 {
+			roomy := func(v []float32) []float32 {
+				buf := make([]float32, len(v)+1+rng.IntN(9))
+				for j := range buf {
+					buf[j] = float32(7 + j)
+				}
+				copy(buf, v)
+				return buf[:len(v)]
+			}
+			ra, rb := roomy(a), roomy(b)
+			rpa, rpb := roomy(pa), roomy(pb)
+			for name, d := range map[string]comet.Distance{"l2": l2, "l2sq": l2sq} {
+				w, g := d.Calculate(a, b), d.Calculate(ra, rb)
+				if math.Float32bits(w) != math.Float32bits(g) {
+					fail(name+".depends-on-memory-behind-the-slice", fmt.Sprintf("Calculate on sub-slices of larger buffers = %g, on exact-size copies = %g", g, w))
+				}
+				wb, gb := d.CalculateBatch([][]float32{a}, b), d.CalculateBatch([][]float32{ra}, rb)
+				if len(wb) != 1 || len(gb) != 1 || math.Float32bits(wb[0]) != math.Float32bits(gb[0]) {
+					fail(name+".depends-on-memory-behind-the-slice", "CalculateBatch on sub-slices of larger buffers differs from exact-size copies")
+				}
+			}
+			if w, g := cos.Calculate(pa, pb), cos.Calculate(rpa, rpb); math.Float32bits(w) != math.Float32bits(g) {
+				fail("cos.depends-on-memory-behind-the-slice", fmt.Sprintf("Calculate on sub-slices of larger buffers = %g, on exact-size copies = %g", g, w))
+			}
+			if pr, err := cos.Preprocess(ra); err == nil && !sameBits(pr, pa) {
+				fail("cos.depends-on-memory-behind-the-slice", "Preprocess of a sub-slice of a larger buffer differs from Preprocess of an exact-size copy")
+			}
+			r.Count("probes:sub-slices-of-larger-buffers", 1)
+		}
+		// a batch result belongs to the caller: it must survive the next batch call
+		if i%5 == 0 {
+			first := l2.CalculateBatch([][]float32{a, b, c}, b)
+			keep := cloneF32(first)
+			l2sq.CalculateBatch([][]float32{c, a}, a)
+			cos.CalculateBatch([][]float32{pa, pb, pc}, pa)
+			l2.CalculateBatch([][]float32{c, c, a}, c)
+			if !sameBits(first, keep) {
+				fail("l2.batch-result-aliasing", "the slice returned by an earlier CalculateBatch changed when later batches were computed")
+			}
+			r.Count("probes:batch-result-retained", 1)
 		}
 		// large batches (blocked / tiled / parallel batch kernels change behaviour past a block size)
 		if i%4 == 0 {
